@@ -245,3 +245,10 @@ VP('C09', 'C09-e1', 'C09.R12', 'slot=_tx_count')
 VP('C09', 'C09-e2', 'C09.R4', 'modaliases')
 VP('C09', 'C09-e3', 'C09.R12', 'reaches-worker')
 VP('C09', 'C09-f3', 'C09.R14', 'remember-after-compile')
+
+# final round: repair of the request state applied before the re-sync
+V('C09', 'revert-fix-request-state-before-sync', 'edb/server/compiler/compiler.py',
+  'edb.server.compiler.compiler.Compiler.compile_in_tx',
+  "            return self._try_compile_rollback(request.source)[0], state\n        else:\n            state.sync_tx(txid)\n",
+  "            return self._try_compile_rollback(request.source)[0], state\n        if request.modaliases is not None:\n            state.current_tx().update_modaliases(request.modaliases)\n        state.sync_tx(txid)\n",
+  'C09.R15', 'update_modaliases-after-sync')
